@@ -155,6 +155,7 @@ func (p *Pair) Route(cookie string) gen.NetworkRoute {
 }
 
 func (p *Pair) Connect(cookie string) (gen.RemoteNode, error) {
+	p.A.Network().RemoveRoute(string(p.B.Name()))
 	p.A.Network().AddRoute(string(p.B.Name()), p.Route(cookie), 100)
 	return p.A.Network().GetNode(p.B.Name())
 }
